@@ -155,7 +155,7 @@ def main(argv):
         keep(pid, k, " ".join(argv[3:]), r, name=os.environ.get("SEEDED_NAME"))
     elif cmd == "recheck":
         names = argv[1:] or sorted(os.listdir(os.path.join(VERIF, "seeded")))
-        wt = "/tmp/seeded_recheck"
+        wt = os.environ.get("SEEDED_RECHECK_WT", "/tmp/seeded_recheck")
         sh("git -C /repo worktree remove --force %s" % wt)
         rc, o = sh("git -C /repo worktree add --detach %s HEAD" % wt)
         assert rc == 0, o
